@@ -17,6 +17,7 @@ def run(rep, tier):
         rep.call(validators.crop_validated_first, rep, prog, "C04.crop-validated-first")
         rep.call(validators.constructors_validate, rep, prog, "C04.constructors")
         rep.call(validators.unchecked_crop, rep, prog, "C04.unchecked-crop")
+        rep.call(validators.crop_route, rep, prog, "C04.crop-route")
         rep.call(type_tables.align_table, rep, prog, "C04.align-table")
         # "an accepted view only ever exposes rows of exactly its width"
         from ..engines import index_rules
